@@ -98,6 +98,12 @@ def run_constructors(ctx, byte):
                     "from_attributes": lambda: numpoly.polynomial_from_attributes([[0]], [x], **kw),
                     "polynomial(poly)": lambda: numpoly.polynomial(numpoly.polynomial(x), **kw),
                     "aspolynomial(poly)": lambda: numpoly.aspolynomial(numpoly.polynomial(x), **kw),
+                    # the names the polynomial already has, given again in every accepted spelling, together with a dtype
+                    "aspolynomial(poly, names=tuple)": lambda: (lambda q: numpoly.aspolynomial(q, names=q.names, **kw))(numpoly.polynomial(x)),
+                    "aspolynomial(poly, names=list)": lambda: (lambda q: numpoly.aspolynomial(q, names=list(q.names), **kw))(numpoly.polynomial(x)),
+                    "aspolynomial(poly, names=poly)": lambda: (lambda q: numpoly.aspolynomial(q, names=q.indeterminants, **kw))(numpoly.polynomial(x)),
+                    "polynomial(poly, names=tuple)": lambda: (lambda q: numpoly.polynomial(q, names=q.names, **kw))(numpoly.polynomial(x)),
+                    "aspolynomial(array, names)": lambda: numpoly.aspolynomial(x, names=("q0",), **kw),
                     "astype": (lambda: numpoly.polynomial(x).astype(req)) if req else None,
                     "from_attributes(2 terms)": lambda: numpoly.polynomial_from_attributes([[0], [2]], [x, x], **kw),
                 }
